@@ -185,6 +185,8 @@ def gen_bhmf(rng):
     hi = rng.choice([40.0, 50.0, 80.0, 100.0])
     inner = sorted(rng.uniform(lo * 1.2, hi * 0.8) for _ in range(nseg - 1))
     mb = [lo] + [round(x, 2) for x in inner] + [hi]
+    if any(b <= a for a, b in zip(mb, mb[1:])):          # rounding may merge two inner breaks
+        mb = [lo] + [lo + (hi - lo) * (i + 1) / nseg for i in range(nseg - 1)] + [hi]
     a = [rng.choice([-1.0, -2.0, -2.35, 0.5, 0.0, round(rng.uniform(-3, 1), 2)]) for _ in range(nseg)]
     nb = [rng.randint(1, 8) for _ in range(nseg)] if rng.random() < 0.8 else rng.randint(nseg, 6 * nseg)
     r = rng.random()
@@ -316,14 +318,18 @@ def check_pop(res):
     if res["pop_bins"] != res["full"]["bins"]:
         return {"clause": "same BH bins as the full model"}
     ntot, mtot = max(sum(res["full"]["N"]), 1.0), max(sum(res["full"]["M"]), 1.0)
-    for tag, N, M, fN, fM, rel in (("default", res["N"], res["M"], res["full"]["N"], res["full"]["M"], 5e-2),
-                                   ("tightened", res["tight"]["N"], res["tight"]["M"], res["tight"]["fN"], res["tight"]["fM"], 1e-4)):
+    # per bin, relative to the class total: at the default tolerance objects are booked into neighbouring bins at the 10 % level (C01),
+    # at 1e-10 still at the 5e-4 level in the *full* model (it converges to the shortcut's value under max_step=1e-3; dopri5 gives up at 1e-12)
+    for tag, N, M, fN, fM, rel in (("default", res["N"], res["M"], res["full"]["N"], res["full"]["M"], 15e-2),
+                                   ("tightened", res["tight"]["N"], res["tight"]["M"], res["tight"]["fN"], res["tight"]["fM"], 2e-3)):
         if tag == "tightened" and not res["tight"]["converged"]:
             continue
         for j in range(len(N)):
             if abs(N[j] - fN[j]) > rel * ntot + 1e-6 or abs(M[j] - fM[j]) > rel * mtot + 1e-6:
                 return {"clause": "BH number and mass per bin equal the full model's at the reported age (no escape, full retention)",
                         "tolerance": tag, "bin": j, "N": [repr(N[j]), repr(fN[j])], "M": [repr(M[j]), repr(fM[j])]}
+    if any(math.isnan(v) or math.isinf(v) for v in (res["Ns_lost"], res["Ms_lost"])):
+        return {"clause": "stellar losses are reported (finite numbers)", "Ns_lost": repr(res["Ns_lost"]), "Ms_lost": repr(res["Ms_lost"])}
     # losses = IMF above the final turn-off
     mto = mto_of(res["tms"], res["age"])
     ms = res["ms"]
@@ -351,7 +357,8 @@ def check_pop(res):
         if bad:
             return bad
         kk = res["kick"]
-        if "error" not in kk and (kk["age"] != res["age"] or kk["Ns_lost"] != res["Ns_lost"] or kk["Ms_lost"] != res["Ms_lost"]):
+        if "error" not in kk and (kk["age"] != res["age"] or kk["Ns_lost"] != res["Ns_lost"] or kk["Ms_lost"] != res["Ms_lost"]) \
+                and not any(math.isnan(v) for v in (kk["Ms_lost"], res["Ms_lost"])):
             return {"clause": "kicks change only the BHs (age and stellar losses as without kicks)"}
     return None
 
